@@ -188,9 +188,11 @@ META = {
  "C20": dict(
     engine="vh-ffi",
     design_ref="5.20",
-    technique="exhaustive enumeration of conversion variants with a name/injectivity/round-trip oracle plus differential runtime monitoring of the binding's database entry points against the native API (harness compiled into dnp3-ffi by hook H4)",
+    technique="exhaustive enumeration of conversion variants with a name/injectivity/round-trip oracle plus differential runtime monitoring of the binding's database entry points against the native API, and recording extern \"C\" callbacks behind every generated interface struct to observe what the callback adapters, promise completions and builders deliver (harness compiled into dnp3-ffi by hook H4; private outstation configuration conversion reached through hook H7); the raw-pointer parts also under Miri",
     text=("Fault enumeration over the binding crate's conversions: all variants of 40+ binding enumerations and all 256 octet values of the native command status, function code and control code types are pushed through the conversion impls and compared by normalised name, injectivity and (where both directions exist) identity of the round trip; struct conversions are probed with a distinct sentinel in every field. "
-          "Differential exploration: random operation sequences through database_add_* / remove / update_*_2 / update_flags / get_* (raw-pointer entry points) on one database and through Database::add / remove / update2 / update_flags / get on another must return the same results and leave databases with byte-identical wire images (all buffered events + class 0)."),
-    note="Error conversions (TaskError into eight binding enums, CommandError, TimeSyncError, FileError, WriteError, AssociationError, PollError) are compared with a hand-written table of binding names; TLS / serial settings and attribute values are not enumerated; callbacks into foreign code are out of reach (no C is crossed).",
+          "Differential exploration: random operation sequences through database_add_* / remove / update_*_2 / update_flags / get_* (raw-pointer entry points) on one database and through Database::add / remove / update2 / update_flags / get on another must return the same results and leave databases with byte-identical wire images (all buffered events + class 0 + device attributes with their variation lists); octet strings and attribute definitions are among the operations. "
+          "Callback adapters: the library's traits implemented on the generated C interface structs (ReadHandler with 13 iterator kinds, AssociationInformation, AssociationHandler, ControlHandler, OutstationApplication, OutstationInformation, eleven promise callbacks) are given recording callbacks; the native trait method is called and the callback chosen, every argument, every iterator item in order, the database pointer and every returned value are compared. "
+          "Request / command-set / dead-band builder entry points are driven next to the native builders and the encoded headers compared; channel / association / outstation configuration structures are compared field by field and each out-of-range value must be refused."),
+    note="Error conversions (TaskError into eight binding enums, CommandError, TimeSyncError, FileError, WriteError, AssociationError, PollError) are compared with a hand-written table of binding names; TLS / serial settings are not enumerated; the callbacks are Rust functions with the C ABI (no C compiler is involved), so the generated C headers themselves are outside the check.",
  ),
 }
